@@ -301,6 +301,12 @@ func judgeLookup(i int, fn string, q *ID, uid int, rid string) bool {
 	}
 	for _, k := range hs {
 		if k == uid-1 {
+			if detached[k] {
+				// RemoveFromUHash took the slot out of the index (its bytes stay in Userid): the id is absent from the
+				// index unless another linked slot holds it, and a lookup must never resolve to the removed slot.
+				fail(i, "lookup:removed-slot", fmt.Sprintf("%s(%q) = %d, but slot %d was removed from the index and not added again", fn, cstrOf(q), uid, k))
+				return false
+			}
 			if rid != "" && rid != hx.Hex(cache.Shm.Shm.Userid[k][:]) {
 				fail(i, "lookup:wrong-rightid", fmt.Sprintf("%s(%q) = %d with stored id %s, slot holds %s", fn, cstrOf(q), uid, rid, hx.Hex(cache.Shm.Shm.Userid[k][:])))
 				return false
@@ -326,27 +332,193 @@ func flipCase(id ID, upper bool) ID {
 	return id
 }
 
-// judgeAllLookups: every linked non-empty id is found, in upper and in lower case, by the real search.
-func judgeAllLookups(i int) bool {
+// judgeLookupAll: the answer of the recorded op `lookupall` (every non-empty slot's id as stored, upper-cased, lower-cased).
+// The oracle itself never calls the functions under test outside recorded ops: a lookup may carry per-process state
+// (a memo, a cache), and a hidden call would change what the next recorded lookup sees.
+func judgeLookupAll(i int, res string) bool {
+	want := []int{}
 	for k := 0; k < MAX; k++ {
-		id := cache.Shm.Shm.Userid[k]
-		if isEmptyID(&id) || detached[k] {
-			continue
+		if !isEmptyID(&cache.Shm.Shm.Userid[k]) {
+			want = append(want, k)
 		}
-		for _, q := range []ID{id, flipCase(id, true), flipCase(id, false)} {
+	}
+	parts := strings.Fields(res)
+	if res == "-" {
+		parts = nil
+	}
+	if len(parts) != len(want) {
+		fail(i, "lookup:all", fmt.Sprintf("lookupall answered for %d slots, %d slots hold an id", len(parts), len(want)))
+		return false
+	}
+	for j, k := range want {
+		kv := strings.SplitN(parts[j], ":", 2)
+		us := []string{}
+		if len(kv) == 2 {
+			us = strings.Split(kv[1], ",")
+		}
+		if len(kv) != 2 || kv[0] != strconv.Itoa(k) || len(us) != 3 {
+			fail(i, "lookup:all", fmt.Sprintf("lookupall entry %q for slot %d", parts[j], k))
+			return false
+		}
+		id := cache.Shm.Shm.Userid[k]
+		for x, q := range []ID{id, flipCase(id, true), flipCase(id, false)} {
 			q := q
-			var uid ptttype.UID
-			out := hx.CallSync(func() string { uid, _ = cache.SearchUserRaw(&q, nil); return "" })
-			if out != "" {
-				fail(i, "crash:search", fmt.Sprintf("SearchUserRaw(%q): %s %s", cstrOf(&q), out, hx.LastPanic))
+			uid, err := strconv.Atoi(us[x])
+			if err != nil {
+				fail(i, "crash:search", fmt.Sprintf("SearchUserRaw(%q): %s", cstrOf(&q), us[x]))
 				return false
 			}
-			if !judgeLookup(i, "search", &q, int(uid), "") {
+			if !judgeLookup(i, "search", &q, uid, "") {
 				return false
 			}
 		}
 	}
 	return true
+}
+
+// execCore runs one index operation on the real code (in this process, or in the peer process) and returns its
+// canonical result.  Arguments were validated by the caller.
+func execCore(ws []string) string {
+	switch ws[0] {
+	case "add":
+		k, _ := parseInt(ws[1])
+		id, _ := parseID(ws[2])
+		return retName(cache.AddToUHash(ptttype.UIDInStore(k), &id))
+	case "remove":
+		k, _ := parseInt(ws[1])
+		return retName(cache.RemoveFromUHash(ptttype.UIDInStore(k)))
+	case "set":
+		u, _ := parseInt(ws[1])
+		id, _ := parseID(ws[2])
+		return retName(cache.SetUserID(ptttype.UID(u), &id))
+	case "search", "dosearch":
+		q, _ := parseID(ws[1])
+		rid := ID{}
+		// rightID starts as a sentinel so that "copied or not" is visible
+		for i := range rid {
+			rid[i] = 0xEE
+		}
+		var uid ptttype.UID
+		if ws[0] == "search" {
+			uid, _ = cache.SearchUserRaw(&q, &rid)
+		} else {
+			uid, _ = cache.DoSearchUserRaw(&q, &rid)
+		}
+		ridSet := "~"
+		if rid[0] != 0xEE || rid[1] != 0xEE {
+			ridSet = hx.Hex(rid[:])
+		}
+		return strconv.Itoa(int(uid)) + " " + ridSet
+	case "getuserid":
+		u, _ := parseInt(ws[1])
+		p, err := cache.GetUserID(ptttype.UID(u))
+		if err != nil {
+			return retName(err)
+		}
+		return hx.Hex(p[:])
+	case "lookupall":
+		var parts []string
+		for k := 0; k < MAX; k++ {
+			id := cache.Shm.Shm.Userid[k]
+			if isEmptyID(&id) {
+				continue
+			}
+			us := make([]string, 0, 3)
+			for _, q := range []ID{id, flipCase(id, true), flipCase(id, false)} {
+				q := q
+				uid, _ := cache.SearchUserRaw(&q, nil)
+				us = append(us, strconv.Itoa(int(uid)))
+			}
+			parts = append(parts, strconv.Itoa(k)+":"+strings.Join(us, ","))
+		}
+		if len(parts) == 0 {
+			return "-"
+		}
+		return strings.Join(parts, " ")
+	}
+	return "bad-op"
+}
+
+// ---- the peer: a second, long-lived process attached to the same segment ------------------------------
+
+var (
+	peerCmd *osexec.Cmd
+	peerIn  *bufio.Writer
+	peerOut *bufio.Reader
+)
+
+func peerStart() bool {
+	if peerCmd != nil {
+		return true
+	}
+	self, err := os.Executable()
+	if err != nil {
+		return false
+	}
+	cmd := osexec.Command(self, "-mode", "peer", "-key", strconv.Itoa(env.ShmKey))
+	in, err1 := cmd.StdinPipe()
+	out, err2 := cmd.StdoutPipe()
+	if err1 != nil || err2 != nil || cmd.Start() != nil {
+		return false
+	}
+	peerCmd, peerIn, peerOut = cmd, bufio.NewWriter(in), bufio.NewReader(out)
+	if l, _ := peerOut.ReadString('\n'); strings.TrimSpace(l) != "ok" {
+		peerStop()
+		return false
+	}
+	return true
+}
+
+func peerStop() {
+	if peerCmd != nil {
+		_ = peerCmd.Process.Kill()
+		_, _ = peerCmd.Process.Wait()
+		peerCmd = nil
+	}
+}
+
+// peerCall has the peer process run one operation on the shared segment.
+func peerCall(line string) string {
+	if !peerStart() {
+		return "TIMEOUT"
+	}
+	ch := make(chan string, 1)
+	go func() {
+		peerIn.WriteString(line + "\n")
+		peerIn.Flush()
+		l, err := peerOut.ReadString('\n')
+		if err != nil {
+			ch <- "TIMEOUT"
+			return
+		}
+		ch <- strings.TrimRight(l, "\n")
+	}()
+	select {
+	case r := <-ch:
+		return r
+	case <-time.After(10 * time.Second):
+		peerStop()
+		return "TIMEOUT"
+	}
+}
+
+func peerMain(key int) {
+	bbsenv.Quiet()
+	w := bufio.NewWriter(os.Stdout)
+	defer w.Flush()
+	if err := cache.NewSHM(types.Key_t(key), false, false); err != nil {
+		fmt.Fprintln(w, "erropen")
+		return
+	}
+	fmt.Fprintln(w, "ok")
+	w.Flush()
+	sc := bufio.NewScanner(os.Stdin)
+	sc.Buffer(make([]byte, 1<<16), 1<<20)
+	for sc.Scan() {
+		ws := strings.Fields(sc.Text())
+		fmt.Fprintln(w, hx.CallSync(func() string { return execCore(ws) }))
+		w.Flush()
+	}
 }
 
 // ---- token syntax (the Lean driver implements the same rules) -----------------------------------
@@ -429,11 +601,41 @@ func step(line string, label string) (out string, idx int) {
 		}
 		return r
 	}
+	// `peer <op>`: the same operation, executed by the second process attached to the segment
+	viaPeer := false
+	if len(ws) >= 2 && ws[0] == "peer" {
+		switch ws[1] {
+		case "add", "remove", "set", "search", "dosearch", "getuserid", "lookupall":
+			viaPeer = true
+			ws = ws[1:]
+		default:
+			ws = []string{"bad-op"}
+		}
+	}
+	exec := func() string {
+		var r string
+		if viaPeer {
+			r = peerCall(strings.Join(ws, " "))
+		} else {
+			r = hx.Call(func() string { return execCore(ws) })
+		}
+		if r == "PANIC" || r == "TIMEOUT" {
+			dead = true
+		}
+		return r
+	}
 	op := ""
 	if len(ws) > 0 {
 		op = ws[0]
 	}
 	switch {
+	case op == "lookupall" && len(ws) == 1:
+		withDump = false
+		res = exec()
+		if label == "" {
+			label = "lookupall"
+		}
+		post = func(i int) { judgeLookupAll(i, res) }
 	case op == "reset" && len(ws) == 1:
 		cache.Shm.Reset()
 		tainted, dead, detached, fresh = false, false, map[int]bool{}, true
@@ -517,7 +719,7 @@ func step(line string, label string) (out string, idx int) {
 				label = fmt.Sprintf("add:chainlen%d", min(len(ns), 5))
 			}
 		}
-		res = call(func() string { return retName(cache.AddToUHash(ptttype.UIDInStore(k), &id)) })
+		res = exec()
 		if legal {
 			delete(detached, k)
 		}
@@ -537,7 +739,7 @@ func step(line string, label string) (out string, idx int) {
 		if label == "" {
 			label = "remove:" + positionLabel(k)
 		}
-		res = call(func() string { return retName(cache.RemoveFromUHash(ptttype.UIDInStore(k))) })
+		res = exec()
 		if legal {
 			detached[k] = true
 		}
@@ -560,7 +762,7 @@ func step(line string, label string) (out string, idx int) {
 				label = fmt.Sprintf("set:%s->chainlen%d", positionLabel(u-1), min(len(ns), 5))
 			}
 		}
-		res = call(func() string { return retName(cache.SetUserID(ptttype.UID(u), &id)) })
+		res = exec()
 		if inRange {
 			delete(detached, u-1)
 		}
@@ -578,25 +780,13 @@ func step(line string, label string) (out string, idx int) {
 		if !ok {
 			break
 		}
-		var uid ptttype.UID
-		rid := ID{}
-		ridSet := "~"
 		withDump = false // lookups do not change the state; the structure oracle still walks the segment
-		res = call(func() string {
-			// rightID starts as a sentinel so that "copied or not" is visible
-			for i := range rid {
-				rid[i] = 0xEE
-			}
-			if op == "search" {
-				uid, _ = cache.SearchUserRaw(&q, &rid)
-			} else {
-				uid, _ = cache.DoSearchUserRaw(&q, &rid)
-			}
-			if rid[0] != 0xEE || rid[1] != 0xEE {
-				ridSet = hx.Hex(rid[:])
-			}
-			return strconv.Itoa(int(uid)) + " " + ridSet
-		})
+		res = exec()
+		uid, ridSet := 0, "~"
+		if f := strings.Fields(res); len(f) == 2 {
+			uid, _ = strconv.Atoi(f[0])
+			ridSet = f[1]
+		}
 		if label == "" {
 			hs := holders(&q)
 			switch {
@@ -615,7 +805,7 @@ func step(line string, label string) (out string, idx int) {
 			if ridSet != "~" {
 				r = ridSet
 			}
-			judgeLookup(i, op, &q, int(uid), r)
+			judgeLookup(i, op, &q, uid, r)
 		}
 	case op == "getuserid" && len(ws) == 2:
 		u, ok := parseInt(ws[1])
@@ -623,13 +813,7 @@ func step(line string, label string) (out string, idx int) {
 			break
 		}
 		withDump = false
-		res = call(func() string {
-			p, err := cache.GetUserID(ptttype.UID(u))
-			if err != nil {
-				return retName(err)
-			}
-			return hx.Hex(p[:])
-		})
+		res = exec()
 		if label == "" {
 			label = "getuserid"
 		}
@@ -731,6 +915,9 @@ func step(line string, label string) (out string, idx int) {
 	if label == "" {
 		label = op
 	}
+	if viaPeer {
+		label = "peer-" + label
+	}
 	if dead {
 		label += ":" + strings.ToLower(res)
 	}
@@ -749,9 +936,7 @@ func step(line string, label string) (out string, idx int) {
 		post(idx)
 	}
 	if !tainted && op != "reset" && op != "file" && op != "attach" {
-		if judgeStructure(idx) && (op == "add" || op == "set" || op == "remove" || op == "load") {
-			judgeAllLookups(idx)
-		}
+		judgeStructure(idx)
 	}
 	return
 }
@@ -851,6 +1036,11 @@ func main() {
 		childMain(k)
 		return
 	}
+	if len(os.Args) >= 5 && os.Args[1] == "-mode" && os.Args[2] == "peer" && os.Args[3] == "-key" {
+		k, _ := strconv.Atoi(os.Args[4])
+		peerMain(k)
+		return
+	}
 	run = hx.Start("C04")
 	defer run.Finish()
 	// hx.NewRand(seed) and hx.NewRand(seed+1) produce the same stream shifted by one draw; scramble the seed so that
@@ -868,13 +1058,14 @@ func main() {
 		os.Exit(2)
 	}
 	defer env.Close()
+	defer peerStop()
 	cache.IsTest = true // SHM.Reset is a no-op otherwise
 	if ptttype.FN_PASSWD != env.Path(".PASSWDS") {
 		fmt.Fprintln(os.Stderr, "unexpected FN_PASSWD", ptttype.FN_PASSWD)
 		os.Exit(2)
 	}
 	detached = map[int]bool{}
-	run.Rule = "histories reset;file;load(cold) then set / remove+add / search (stored, upper, lower, mixed case; absent; empty) / dosearch / getuserid / on-the-fly reload from a file agreeing with the live table / cold reload; ids drawn from families precomputed to collide in the 16-bit hash (incl. one family colliding with the empty id), case variants, ids with bytes after the NUL, unterminated 13-byte ids, invalid ids, full tables; first an enumeration of every chain position (length 1..5) x {remove+add, rename inside the family, rename away, clear}. Malformed stream (judged by the correspondence only): adds on linked slots, out-of-range slots and uids, poked pointers repaired by checkHash, disagreeing/torn/missing/over-long files, bad tokens. distinct = distinct op lines inside the quantifier"
+	run.Rule = "lookup-change-lookup triples (lookup of X, then remove / clear / rename / move / slot re-use / cold reload, then X again with no lookup in between; lookups and changes by this process or by a long-lived peer process on the same segment; the oracle makes no hidden calls: `lookupall` is a recorded op); histories reset;file;load(cold) then set / remove+add / search (stored, upper, lower, mixed case; absent; empty) / dosearch / getuserid / on-the-fly reload from a file agreeing with the live table / cold reload; ids drawn from families precomputed to collide in the 16-bit hash (incl. one family colliding with the empty id), case variants, ids with bytes after the NUL, unterminated 13-byte ids, invalid ids, full tables; first an enumeration of every chain position (length 1..5) x {remove+add, rename inside the family, rename away, clear}. Malformed stream (judged by the correspondence only): adds on linked slots, out-of-range slots and uids, poked pointers repaired by checkHash, disagreeing/torn/missing/over-long files, bad tokens. distinct = distinct op lines inside the quantifier"
 	run.Extra["max_users"] = MAX
 	run.Extra["hash_buckets"] = NB
 
